@@ -19,6 +19,7 @@ import (
 //	i  instant
 //	e  instant, returns *jrpc2.Error{Code: 7}
 //	u  instant, returns a value that cannot be marshalled
+//	r  instant, returns *jrpc2.Error{Code: InvalidRequest}; p: code ParseError
 //
 // Every invocation logs h.enter / h.exit with the logical clock, counts as
 // running in between, and returns the unique token "<tag>/<seq>".
@@ -146,6 +147,10 @@ func (h *Handlers) wrap(kind byte) jrpc2.Handler {
 		switch kind {
 		case 'e':
 			return nil, &jrpc2.Error{Code: 7, Message: "E:" + tag}
+		case 'r': // application error that happens to use the InvalidRequest code
+			return nil, &jrpc2.Error{Code: jrpc2.InvalidRequest, Message: "R:" + tag}
+		case 'p': // application error that happens to use the ParseError code
+			return nil, jrpc2.Errorf(jrpc2.ParseError, "P:%s", tag)
 		case 'u':
 			return UnmarshalableResult{}, nil
 		}
@@ -162,7 +167,7 @@ func (h *Handlers) Assign(ctx context.Context, method string) jrpc2.Handler {
 		return f
 	}
 	switch method {
-	case "g", "G", "i", "e", "u":
+	case "g", "G", "i", "e", "u", "r", "p":
 		return h.wrap(method[0])
 	}
 	return nil
@@ -170,7 +175,7 @@ func (h *Handlers) Assign(ctx context.Context, method string) jrpc2.Handler {
 
 // Names implements jrpc2.Namer.
 func (h *Handlers) Names() []string {
-	names := []string{"G", "e", "g", "i", "u"}
+	names := []string{"G", "e", "g", "i", "p", "r", "u"}
 	for k := range h.Extra {
 		names = append(names, k)
 	}
